@@ -7,7 +7,7 @@
    plain pattern and for one rotating variant of the global modifiers.
    The design theorems are checked on every (pattern, tree) of the scope as invariants. *)
 EXTENDS Glob, TLC, Json
-CONSTANTS PS, MW, RICH      \* max segments, max wildcards, 0 = small symbol set / 1 = larger
+CONSTANTS PS, MW, RICH, TPS  \* max segments, max wildcards, symbol set 0 < 1 < 2, theorems up to TPS segments
 VARIABLE segs
 
 a == 97
@@ -41,9 +41,10 @@ Trees == <<
 
 Cands == [ti \in 1..Len(Trees) |-> CandInfo(Trees[ti])]
 
-Lits == IF RICH = 0 THEN {<<a>>, <<b>>, <<DOT>>, <<DOT, a>>}
+Lits == IF RICH < 2 THEN {<<a>>, <<b>>, <<DOT>>, <<DOT, a>>}
         ELSE {<<a>>, <<b>>, <<DOT>>, <<DOT, a>>, <<a, b>>, <<a, DOT>>, <<a, a>>, <<DOT, b>>}
-MSets == IF RICH = 0 THEN {<<>>, <<SetM(<<a>>)>>, <<SetM(<<DOT, a>>)>>}
+MSets == IF RICH = 0 THEN {<<>>, <<SetM(<<DOT, a>>)>>}
+         ELSE IF RICH = 1 THEN {<<>>, <<SetM(<<a>>)>>, <<SetM(<<DOT, a>>)>>}
          ELSE {<<>>, <<SetM(<<a>>)>>, <<SetM(<<DOT, a>>)>>, <<SetM(<<a, SLASH>>)>>, <<RangeM(a, b)>>, <<SetM(<<b>>), ClassM("punct")>>}
 Symbols == {Lit(cs) : cs \in Lits} \cup {Slash}
            \cup {Wild(t, ms, h) : t \in {"q", "star", "ss"}, ms \in MSets, h \in BOOLEAN}
@@ -104,7 +105,7 @@ LitLen(s, i) == IF i > Len(s) THEN 0 ELSE LitLen(s, i + 1) + (IF s[i].t = "lit" 
 NoSlashIn(p) == \A j \in 1..Len(p) : p[j] # SLASH
 
 Theorems ==
-  Complete(segs) =>
+  (Complete(segs) /\ Len(segs) <= TPS) =>
     \A ti \in 1..Len(Trees) :
       LET T  == Trees[ti]
           P  == Pat(segs, FALSE, <<>>, "")
